@@ -81,6 +81,8 @@ def main():
         print(f"{p}: clean={code} renamed={code2} violations={len(v)} undecided={len(u)} errors={len(err)}")
         for o in v[:6]:
             print(f"    FALSE-ALARM {o['obligation']} {o['rule']} {o['where']}: {o['what'][:80]} :: {o['construct'][:60]}")
+        for o in u[:8]:
+            print(f"    UNDECIDED {o['obligation']} {o['rule']} {o['where']}: {o['what'][:90]} :: {o['construct'][:60]}")
         for l in err[:3]:
             print("    " + l[:200])
 
